@@ -343,7 +343,8 @@ def _check(c, model, input_db, span, kwargs, result):
                     return
                 gs = got_std.get(lab)
                 if gs is not None and np.isfinite(gs[t]):
-                    if abs(gs[t] - sd[r]) > (1e-7 * scale_s * tolmul + 1e-7 * sd_scale):
+                    # compared on the variance scale: a (numerically) zero conditional variance must not be amplified by the square root
+                    if abs(gs[t] ** 2 - sd[r] ** 2) > 1e-7 * scale_s ** 2 * tolmul:
                         vio(f"{stage}_std:{_kind(lab)}-differs" + (":rescale_variance" if rescale else ""),
                             f"{stage}_std of {_name(J, lab, zero_shift)} in period {t}: {gs[t]!r} vs conditional std {sd[r]!r}",
                             detail={"stage": stage, "period": t, "quantity": _name(J, lab, zero_shift)})
